@@ -19,6 +19,7 @@ import GgrsModel.Properties.C04
 import GgrsModel.Proofs.Monad
 import GgrsModel.Proofs.Queue
 import GgrsModel.Proofs.World
+import GgrsModel.Proofs.DelayStep
 
 namespace Ggrs.SyncLayer
 
@@ -88,6 +89,21 @@ theorem C02_consistent_first_call {G : Type} (step : G → List (Input × InputS
     TickOK step g0 b.1 b.2 s' reqs' := by
   have h := WInv_run step g0 a b h0 hrun
   exact (WInv_tick0 step g0 b.1 s' b.2 now sy r reqs' ((savedFrames reqs').map fun f => (f, none)) h hf0 hsv hadv
+    (by simp [List.map_map, Function.comp_def])).2
+
+end Ggrs
+
+namespace Ggrs
+
+/-- `C02_consistent_partial` for runs that also contain `set_input_delay` calls of local players
+(they touch neither the game nor the cells). -/
+theorem C02_consistent_delay {G : Type} (step : G → List (Input × InputStatus) → G) (g0 : G)
+    (a b : P2P × GS G) (h0 : DWInv step g0 a) (hrun : DWStar step a b)
+    (now : Nat) (reqs' : List Request) (s' : P2P)
+    (hadv : b.1.advanceRollbackFrame now [] = .ok (s', reqs')) :
+    TickOK step g0 b.1 b.2 s' reqs' := by
+  have h := (DWInv_run step g0 a b h0 hrun).1
+  exact (WInv_tick step g0 b.1 s' b.2 now reqs' ((savedFrames reqs').map fun f => (f, none)) h hadv
     (by simp [List.map_map, Function.comp_def])).2
 
 end Ggrs
